@@ -37,7 +37,7 @@ func init() {
 	Props["C01"] = PropDef{
 		Gen: func(t *rapid.T, thorough bool) *Script {
 			o := mixedOpts(thorough)
-			o.Overhead, o.DRA, o.SchedCrash = true, true, true
+			o.Overhead, o.DRA, o.SchedCrash, o.BestEffort = true, true, true, true
 			if chance(t, "faultfree", 40) {
 				o.Faults, o.BindFailures, o.SchedCrash = false, false, false
 				return GenScript(t, "C01", "mixed-faultfree", o)
@@ -52,7 +52,7 @@ func init() {
 	Props["C14"] = PropDef{
 		Gen: func(t *rapid.T, thorough bool) *Script {
 			o := mixedOpts(thorough)
-			o.Overhead, o.DRA, o.SchedCrash = true, true, true
+			o.Overhead, o.DRA, o.SchedCrash, o.BestEffort = true, true, true, true
 			if chance(t, "faultfree", 50) {
 				o.Faults, o.BindFailures, o.SchedCrash = false, false, false
 				return GenScript(t, "C14", "mixed-faultfree", o)
